@@ -7,6 +7,7 @@ import (
 	"strings"
 	"sync"
 	"sync/atomic"
+	"time"
 )
 
 // Heartbeat is bumped by the scheduler on every step.  A watchdog goroutine
@@ -205,6 +206,15 @@ type RunResult struct {
 	// SpecSkipped: the run is a speculative one but this mode cannot
 	// speculate; it was not executed.
 	SpecSkipped bool
+	// UnhookedBlock: a released task blocked in a lock (or channel) that has
+	// no scheduling point in front of it; the run was abandoned.
+	UnhookedBlock bool
+	// FreeRunDeadlock: after the run was abandoned and every task was left
+	// to run freely, all unfinished tasks ended up blocked on locks.
+	FreeRunDeadlock bool
+	// Leaked: the tasks of an abandoned run could not be finished and were
+	// left parked (race build).
+	Leaked      bool
 	Panics      []string // "task N: value\nstack"
 	TraceHash   uint64
 	Trace       []Event
@@ -237,6 +247,8 @@ type Sched struct {
 	// abandoned run finish on their own so that nothing is leaked
 	freeRun  bool
 	specDone bool
+	cancel   bool
+	leaked   bool
 
 	// lock tracking (LockTrack)
 	mutexHeld map[any]int // obj -> task id
@@ -301,12 +313,13 @@ func (s *Sched) taskExit(t *task, pv any) {
 }
 
 //go:norace
-func (s *Sched) release(t *task) {
+func (s *Sched) release(t *task) bool {
 	s.cur = t
 	s.inTask = true
 	s.Gate.Wake(t.id)
-	s.Gate.WaitNotify()
+	ok := s.waitTask(t)
 	s.inTask = false
+	return ok
 }
 
 //go:norace
@@ -333,7 +346,11 @@ func (s *Sched) Run(bodies []func(t *TaskCtx)) *RunResult {
 	if err := s.Gate.Init(n); err != nil {
 		panic("verifsim: gate init: " + err.Error())
 	}
-	defer s.Gate.Close()
+	defer func() {
+		if !s.leaked {
+			s.Gate.Close()
+		}
+	}()
 
 	var wg sync.WaitGroup
 	for i := range bodies {
@@ -343,6 +360,13 @@ func (s *Sched) Run(bodies []func(t *TaskCtx)) *RunResult {
 		go func() {
 			t.goid = curGoid()
 			s.Gate.Park(t.id)
+			if s.cancelled() {
+				s.taskExit(t, nil)
+				close(t.finished)
+				wg.Done()
+				s.Gate.Notify()
+				return
+			}
 			defer func() {
 				s.taskExit(t, recover())
 				// A real release: lets the scheduler goroutine read what
@@ -395,7 +419,7 @@ func (s *Sched) Run(bodies []func(t *TaskCtx)) *RunResult {
 	if s.Cfg.Speculate && !s.canSpeculate() {
 		// hand the never-started tasks a free run so that they end
 		s.res.SpecSkipped = true
-		s.abandon(unfinished, nil)
+		s.cancelAll(unfinished)
 		wg.Wait()
 		return &s.res
 	}
@@ -460,8 +484,10 @@ func (s *Sched) Run(bodies []func(t *TaskCtx)) *RunResult {
 			t := lockWait[s.Ch.Intn("spec.pick", len(lockWait))]
 			if !s.speculate(t) {
 				s.res.SpecBlocked = true
-				s.abandon(unfinished, t)
-				wg.Wait()
+				if !s.abandon(unfinished, t) {
+					s.res.Deadlock = true
+					s.res.FreeRunDeadlock = true
+				}
 				s.res.Steps = step
 				return &s.res
 			}
@@ -495,7 +521,18 @@ func (s *Sched) Run(bodies []func(t *TaskCtx)) *RunResult {
 		}
 		s.acquire(t)
 		s.step = step
-		s.release(t)
+		if !s.release(t) {
+			// the task sits in a lock (or another blocking operation) that
+			// has no scheduling point in front of it: this schedule cannot
+			// be continued under the scheduler's control
+			s.res.UnhookedBlock = true
+			if !s.abandon(unfinished, t) {
+				s.res.Deadlock = true
+				s.res.FreeRunDeadlock = true
+			}
+			s.res.Steps = step
+			return &s.res
+		}
 
 		point, obj, nval, notes, done := s.readMailbox(t)
 		for _, nt := range notes {
@@ -816,51 +853,164 @@ func goroutineState(id string) string {
 // no-ops, every task runs to completion on its own, nothing is leaked, and
 // the run is discarded - never reported.
 func (s *Sched) speculate(t *task) bool {
-	g := s.Gate.(*ChanGate)
 	s.cur = t
 	s.inTask = true
-	g.task[t.id] <- struct{}{}
-	for i := 0; i < 64; i++ {
-		select {
-		case <-g.sched:
-			s.inTask = false
-			return true
-		default:
-		}
-		runtime.Gosched()
-		select {
-		case <-g.sched:
-			s.inTask = false
-			return true
-		default:
-		}
-		st := goroutineState(t.goid)
-		switch {
-		case strings.HasPrefix(st, "sync.") || strings.HasPrefix(st, "semacquire"):
-			return false
-		case strings.HasPrefix(st, "chan send"):
-			// about to notify: the next select gets it
-		}
-	}
-	return false
+	s.Gate.Wake(t.id)
+	ok := s.waitTask(t)
+	s.inTask = false
+	return ok
 }
 
-// abandon lets every unfinished task run to completion with all hooks
-// disabled and consumes their exit notifications.  blocked is the task that
-// sits in a real lock (it needs no wake-up), or nil.
-func (s *Sched) abandon(unfinished int, blocked *task) {
+func blockedState(st string) bool {
+	return strings.HasPrefix(st, "sync.") || strings.HasPrefix(st, "semacquire") ||
+		strings.HasPrefix(st, "chan receive") || strings.HasPrefix(st, "select") || strings.HasPrefix(st, "chan send (nil") || strings.HasPrefix(st, "chan receive (nil")
+}
+
+//go:norace
+func (s *Sched) cancelled() bool { return s.cancel }
+
+// waitTask waits for the notification of the released task t.  It returns
+// false if t is found blocked inside a synchronisation primitive instead:
+// the runtime's own goroutine state ("sync.Mutex.Lock", "sync.RWMutex.RLock",
+// "semacquire", a foreign channel operation) is the test, so the verdict does
+// not depend on timing.
+func (s *Sched) waitTask(t *task) bool {
+	switch g := s.Gate.(type) {
+	case *ChanGate:
+		if runtime.GOMAXPROCS(0) != 1 {
+			g.WaitNotify()
+			return true
+		}
+		// One P: after Gosched the released task has run until it blocked.
+		// Either its notification is waiting in the channel, or it is
+		// blocked elsewhere (or was preempted, or sits in a system call:
+		// then the loop simply yields again).
+		for {
+			select {
+			case <-g.sched:
+				return true
+			default:
+			}
+			runtime.Gosched()
+			select {
+			case <-g.sched:
+				return true
+			default:
+			}
+			if blockedState(goroutineState(t.goid)) {
+				// "chan receive" would also be our own Park, but Park is
+				// always preceded by the notification just looked for
+				select {
+				case <-g.sched:
+					return true
+				default:
+				}
+				return false
+			}
+		}
+	case *PipeGate:
+		strikes := 0
+		for {
+			if pollIn(g.schedR, 250) {
+				g.WaitNotify()
+				return true
+			}
+			if blockedState(goroutineState(t.goid)) {
+				strikes++
+				if strikes >= 2 && !pollIn(g.schedR, 0) {
+					return false
+				}
+			} else {
+				strikes = 0
+			}
+		}
+	default:
+		s.Gate.WaitNotify()
+		return true
+	}
+}
+
+// cancelAll ends tasks that have not started yet without running them.
+func (s *Sched) cancelAll(n int) {
+	s.setCancel()
+	for _, t := range s.tasks {
+		s.Gate.Wake(t.id)
+	}
+	for i := 0; i < n; i++ {
+		s.Gate.WaitNotify()
+	}
+}
+
+//go:norace
+func (s *Sched) setCancel() { s.cancel = true }
+
+// abandon gives up control of a run that cannot be continued under the
+// scheduler.  Plain build: every hook becomes a no-op and every task is left
+// to run to completion on its own (a real, uncontrolled execution), so that
+// nothing is leaked; if instead all unfinished tasks end up blocked on locks
+// the function returns false: a real deadlock of the code under test.  Race
+// build: the tasks are left parked for ever (a free run under the detector
+// would produce unreplayable reports) and the gate is not closed.
+// blocked is the task that sits in a real lock (it needs no wake-up).
+func (s *Sched) abandon(unfinished int, blocked *task) bool {
+	g, isChan := s.Gate.(*ChanGate)
+	if !isChan || runtime.GOMAXPROCS(0) != 1 {
+		s.leaked = true
+		s.res.Leaked = true
+		return true
+	}
 	s.freeRun = true
 	s.inTask = true
+	defer func() { s.inTask = false }()
 	for _, t := range s.tasks {
 		if t.done || t == blocked {
 			continue
 		}
 		// every other task is parked in, or on its way into, Park: a
 		// blocking wake-up reaches it either way
-		s.Gate.Wake(t.id)
+		g.Wake(t.id)
 	}
-	for i := 0; i < unfinished; i++ {
-		s.Gate.WaitNotify()
+	remaining := unfinished
+	strikes := 0
+	for remaining > 0 {
+		select {
+		case <-g.sched:
+			remaining--
+			strikes = 0
+			continue
+		default:
+		}
+		runtime.Gosched()
+		select {
+		case <-g.sched:
+			remaining--
+			strikes = 0
+			continue
+		default:
+		}
+		all := true
+		for _, t := range s.tasks {
+			if s.taskDone(t) {
+				continue
+			}
+			st := goroutineState(t.goid)
+			if !(strings.HasPrefix(st, "sync.") || strings.HasPrefix(st, "semacquire")) {
+				all = false
+				break
+			}
+		}
+		if all {
+			strikes++
+			if strikes >= 3 {
+				return false
+			}
+			time.Sleep(20 * time.Millisecond)
+		} else {
+			strikes = 0
+		}
 	}
-	s.inTask = false
+	return true
 }
+
+//go:norace
+func (s *Sched) taskDone(t *task) bool { return t.done }
